@@ -7,6 +7,13 @@ from vf import harness
 
 
 def main(argv=None):
+    # (paths with lone surrogates - names that are not UTF-8 - must not make the
+    # report itself fail)
+    for stream in (sys.stdout, sys.stderr):
+        try:
+            stream.reconfigure(errors='backslashreplace')
+        except Exception:
+            pass
     ap = argparse.ArgumentParser()
     ap.add_argument('check')
     ap.add_argument('--tier', default=os.environ.get('VERIF_TIER', 'quick'),
